@@ -55,7 +55,16 @@ func (ss *segmentStack) decRef() {
 			ss.lowerLevelSnapshot = nil
 		}
 	}
+	releaseChildren := ss.refs == 0
 	ss.m.Unlock()
+
+	if releaseChildren {
+		// A segmentStack holds one ref-count on each of its child stacks,
+		// which in turn hold their child lower level snapshots.
+		for _, childSegStack := range ss.childSegStacks {
+			childSegStack.decRef()
+		}
+	}
 }
 
 // ------------------------------------------------------
